@@ -35,13 +35,14 @@ func unbondProfile() Profile {
 	p.BoundaryPct = 45
 	p.RepeatPct = 40
 	p.Weights[GPackBucket] = 7
+	p.Weights[KReimport] = 3
 	return p
 }
 
 func slashProfile() Profile {
 	p := baseProfile()
 	p.Name = "slash"
-	p.Weights = map[string]int{KDelegate: 22, KUndelegate: 12, KRedelegate: 18, KClaim: 3, KBlock: 14, KSlashHook: 12, KSlash: 10, KUnbTime: 2, KJail: 1, KUnjail: 1, KDelete: 1, KCreate: 1, GRedelThenExit: 5, GMultiRedelSlash: 3, GPackBucket: 4, GMultiUnbondSlash: 3}
+	p.Weights = map[string]int{KDelegate: 22, KUndelegate: 12, KRedelegate: 18, KClaim: 3, KBlock: 14, KSlashHook: 12, KSlash: 10, KUnbTime: 2, KJail: 1, KUnjail: 1, KDelete: 1, KCreate: 1, GRedelThenExit: 5, GMultiRedelSlash: 3, GPackBucket: 4, GMultiUnbondSlash: 3, KReimport: 3}
 	p.FocusDelPct = 40
 	return p
 }
@@ -84,6 +85,7 @@ func init() {
 			p.Weights[KUpdate] = 3
 			p.Weights[KClaim] = 5
 			p.Weights[GExportAtBoundary] = 10
+			p.Weights[KReimport] = 0
 			p.Weights[GRedelThenExit] = 3
 			p.ChRates = []string{"1", "0.5", "0.99"}
 			p.Delays = []int64{0, 0, sec, 7 * day}
@@ -353,7 +355,7 @@ func init() {
 		Profile: func(tier string) Profile {
 			p := slashProfile()
 			p.Name = "redelegate"
-			p.Weights = map[string]int{KDelegate: 22, KUndelegate: 8, KRedelegate: 30, KClaim: 2, KBlock: 20, KSlashHook: 3, KSlash: 3, KUnbTime: 3, GShareFraction: 4}
+			p.Weights = map[string]int{KDelegate: 22, KUndelegate: 8, KRedelegate: 30, KClaim: 2, KBlock: 20, KSlashHook: 3, KSlash: 3, KUnbTime: 3, GShareFraction: 4, KReimport: 3}
 			p.InvalidPct = 4
 			return tierSteps(p, tier)
 		},
